@@ -185,7 +185,7 @@ pub fn property() -> Property {
                     st.observations += 1;
                     let nt = check_pair(a, b, &markers)?;
                     if nt {
-                        st.nontrivial.insert(hash_of(&(i, j)));
+                        st.nontrivial_enumerated += 1;
                         if st.samples.len() < 2 && i % 37 == 5 && j % 11 == 3 {
                             st.samples.push(json!({"low/high": [show(a), show(b)], "markers": markers}));
                         }
